@@ -1271,6 +1271,30 @@ func (x *Exec) anchor(st *State, where string, pos token.Pos, ord int) {
 			}
 		case "use":
 			x.useLemma(st, env, a.Clause, where, i)
+		case "havoc":
+			for _, tgt := range strings.Split(a.Clause.Src, ",") {
+				tgt = strings.TrimSpace(tgt)
+				star := strings.HasSuffix(tgt, "[*]")
+				v := x.specIdent(env, &EIdent{Name: strings.TrimSuffix(tgt, "[*]")})
+				sv, ok := v.(SliceV)
+				if !ok {
+					fail("havoc target %s is not a slice", tgt)
+				}
+				if !star {
+					hk, es := heapKey(sv.Elem)
+					h := x.heap(st, hk, es)
+					st.heaps[hk] = Store(h, sv.Ref, x.fresh("pool_"+strings.TrimSuffix(tgt, "[*]"), ArrSort(es)))
+				} else {
+					inner := sv.Elem.Underlying().(*types.Slice)
+					hk, es := heapKey(inner.Elem())
+					h := x.heap(st, hk, es)
+					nh := x.fresh("H_"+hk, h.Sort)
+					x.preserveFrameCall(st, hk, h, nh, sv)
+					_ = es
+					st.heaps[hk] = nh
+				}
+			}
+			x.eng.assume(fmt.Sprintf("%s: %s: memory written by the worker goroutines (%s) is havocked (M1)", x.key, where, a.Clause.Src))
 		case "assume":
 			// explicitly trusted facts (meta-theorems such as the pool contract M1); listed in the evidence
 			st.assume(asTerm(x.evalSpec(env, a.Clause.E)), "ASSUMED:"+where)
@@ -1368,7 +1392,6 @@ func (x *Exec) callMods(call *ast.CallExpr, ms *modSet) {
 					markBase(ie.X)
 				}
 			}
-			ms.ghost = true
 		case strings.HasPrefix(path, "sync."), strings.HasPrefix(path, "os."), strings.HasPrefix(path, "io."), callee.Name() == "Write":
 			ms.ghost = true
 		case path == "io/ioutil.ReadFile":
